@@ -335,3 +335,16 @@ package nflog
 //@   ensures [found-iff-a-float-is-stored] result1 == (key in s.data && typeis(s.data[key].Value, *pb.ReceiverDataValue_DoubleVal))
 //@   ensures [value] result1 ==> result0 == unbox(s.data[key].Value, *pb.ReceiverDataValue_DoubleVal).DoubleVal
 //@   assigns nothing
+
+// ---- C11 / C10: start-up of the notification log: configured retention; a missing snapshot file is a fresh start, any
+// other open error is reported; what was opened (or handed in as a reader) is loaded, a load error is returned.
+//@ func New
+//@   props C11 C10
+//@   nosafe
+//@   at call Log).loadSnapshot assert [loads-what-was-opened-or-given] count("Log).loadSnapshot") == 0 && arg0 != nil && fresh(arg0) && arg0.retention == o.Retention && arg0.st != nil && len(arg0.st) == 0
+//@             && (called("os.Open") && ret1("os.Open") == nil ? typeis(arg1, *os.File) && unbox(arg1, *os.File) == ret("os.Open") : arg1 == o.SnapshotReader)
+//@   ensures [a-missing-file-is-a-fresh-start-any-other-open-error-is-reported] called("os.Open") && ret1("os.Open") != nil && !ret("os.IsNotExist") ==> result0 == nil && result1 == ret1("os.Open")
+//@   ensures [a-load-error-is-reported] called("Log).loadSnapshot") && ret("Log).loadSnapshot") != nil ==> result1 == ret("Log).loadSnapshot")
+//@   ensures [an-opened-snapshot-is-loaded] called("os.Open") && ret1("os.Open") == nil ==> called("Log).loadSnapshot")
+//@   ensures [success-yields-a-log] result1 == nil ==> result0 != nil && result0.retention == o.Retention
+//@   noeffect Log).loadSnapshot Options).validate newMetrics
